@@ -74,6 +74,9 @@ def ns(**kw):
 
 
 # --------------------------------------------------------------------------------------- decomposition monitor
+RERUN = {"active": False}
+
+
 def tool_remembers_its_matrix(self, matrix_to_decompose):
     """snapshot at construction: the matrix the tool was given is the one every later request is about"""
     try:
@@ -87,6 +90,8 @@ def tool_remembers_its_matrix(self, matrix_to_decompose):
 
 def decomposition_agrees_with_dense_solver(self, tol, maxiter, which, sigma, k, result):
     mon = "C14.decomposition"
+    if RERUN["active"]:
+        return True       # a repetition issued by this monitor itself
     try:
         M = self.matrix_to_decompose
         Md = np.asarray(M.todense() if sparse.issparse(M) else M, dtype=float)
@@ -127,6 +132,28 @@ def decomposition_agrees_with_dense_solver(self, tol, maxiter, which, sigma, k, 
         miss = unmatched(vals, dense, etol)
         if miss:
             problems.append({"not_matched_one_to_one_in_dense_spectrum": miss[:3], "tolerance": etol})
+        elif not RERUN["active"]:
+            sel = selection_problem(vals, dense, which, sigma, etol, rho)
+            if sel is not None:
+                # ARPACK starts from a random vector and may, once in a while, stop on a converged set of Ritz values that are not the
+                # extremal ones (small matrices, k close to the Krylov dimension, loose tolerance). A defect in the package reproduces:
+                # the same request is repeated twice on fresh tools and only counts if the selection is wrong every time
+                from molgri.molecules import transitions
+                repeats = []
+                RERUN["active"] = True
+                try:
+                    for _ in range(2):
+                        try:
+                            v2, _w = transitions.DecompositionTool(sparse.csr_array(Md)).get_decomposition(tol=tol, maxiter=maxiter, which=which, sigma=sigma, k=k)
+                            repeats.append(selection_problem(np.asarray(v2).real, dense, which, sigma, etol, rho))
+                        except Exception:
+                            repeats.append("raised")
+                finally:
+                    RERUN["active"] = False
+                if all(r is not None for r in repeats):
+                    problems.append(sel)
+                else:
+                    REC.notes["C14 ARPACK returned converged but non-extremal eigenvalues once; not reproduced on repetition (not judged)"] += 1
         ctx = CTX.get(id(M)) or CTX.get("last_rate_matrix")
         top_targeted = (sigma is None and which == "LR") or (sigma is not None and which == "LM" and float(sigma) > 0)
         if top_targeted and ctx is not None and ctx.get("connected") and ctx["Q"].shape == Md.shape and np.array_equal(ctx["Q"], Md):
@@ -153,8 +180,41 @@ def decomposition_agrees_with_dense_solver(self, tol, maxiter, which, sigma, k, 
                         problems.append({"left_eigenvector_vs_V_exp(-E/RT)_max_err_over_max": float(err), "bound": bound})
                     else:
                         REC.ok("C14.stationary_vector")
+        if problems and not RERUN["active"] and not RERUN.get("nested") and M0 is not None:
+            # ARPACK starts from a random vector: whatever is reported here must reproduce. The same request is repeated twice on fresh
+            # tools holding a copy of the construction-time matrix; a repetition that passes all clauses makes this a solver fluke
+            from molgri.molecules import transitions as _tr
+            clean = 0
+            for _ in range(2):
+                RERUN["nested"] = True
+                before = REC.monitors[mon]["fail"]
+                try:
+                    t2 = _tr.DecompositionTool(sparse.csr_array(M0))
+                    CTX[id(t2.matrix_to_decompose)] = CTX.get(id(M)) or CTX.get("last_rate_matrix")
+                    saved = (REC.violations[:], REC.violation_count, {k_: dict(v_) for k_, v_ in REC.monitors.items()})
+                    t2.get_decomposition(tol=tol, maxiter=maxiter, which=which, sigma=sigma, k=k)
+                    if REC.monitors[mon]["fail"] == before:
+                        clean += 1
+                    # the repetition is bookkeeping of this monitor, not an observation of its own: restore the counters
+                    REC.violations[:] = saved[0]
+                    REC.violation_count = saved[1]
+                    for k_, v_ in saved[2].items():
+                        REC.monitors[k_].update(v_)
+                except Exception:
+                    pass
+                finally:
+                    RERUN["nested"] = False
+            if clean:
+                REC.notes["C14 a decomposition disagreement was not reproduced when the same request was repeated (solver fluke, not judged)"] += 1
+                problems = []
         if problems:
-            REC.fail(mon, {"n": n, "tol": tol, "which": which, "sigma": sigma, "k": k, "problems": problems[:4]})
+            mech = None
+            if sigma is None and which == "SM" and len(problems) == 1 and isinstance(problems[0], dict) \
+                    and all(abs(v) <= etol for v in problems[0].get("selected_by_the_rule_but_not_returned", [1e300])):
+                # known finding F19: without a shift ARPACK cannot find the eigenvalue zero of a singular generator (its start vector is
+                # forced into the range of the operator); the repair F15 covers 'LR'/'SR' only, 'SM' has no order-preserving real shift
+                mech = "sm_without_shift_misses_eigenvalue_zero"
+            REC.fail(mon, {"n": n, "tol": tol, "which": which, "sigma": sigma, "k": k, "problems": problems[:4]}, mechanism=mech)
         else:
             REC.ok(mon)
     except Exception as e:
@@ -238,7 +298,7 @@ def pipeline(spec, rng, nprng, d, repo):
     n = len(np.load(paths["full_array"]))
     # arbitrary per-cell energies: interaction energies around zero, or total (QM-style) energies with a huge common offset
     offset = spec.get("energy_offset", 0.0)
-    spread = spec.get("energy_spread", 20.0)
+    spread = spec.get("energy_spread", 20.0)     # 0.5: an almost flat landscape (free diffusion; the spectrum is nearly that of the bare geometry)
     energies = offset + nprng.uniform(-spread, spread, size=n)
     if spec.get("ramp"):
         # a repulsive wall: +350 kJ/mol per shell - every neighbour difference stays below the 500 kJ/mol cap, the total range does not
@@ -337,11 +397,18 @@ def pipeline(spec, rng, nprng, d, repo):
     if n >= 16:
         settings.append(("workflow", dict(tol=1e-5, maxiter=100000, sigma="None", which="LR")))
         settings.append(("workflow", dict(tol=1e-5, maxiter=100000, sigma=repr(gap * rng.uniform(0.05, 0.4)), which="LM")))
+    if 14 <= n <= 40 and not stiff:
+        # k deep in the spectrum of a small matrix (the package default k = 12 on a 15-cell grid)
+        settings.append(("direct", dict(tol=1e-10, maxiter=100000, sigma=None, which="LR", k=min(12, n - 2))))
     for kk in (3, 6):
         if n > kk + 2:
             settings.append(("direct", dict(tol=rng.choice([1e-5, 1e-10]), maxiter=100000, sigma=None, which="LR", k=kk)))
             settings.append(("direct", dict(tol=1e-10, maxiter=100000, sigma=gap * rng.uniform(0.05, 0.4), which="LM", k=kk)))
             settings.append(("direct", dict(tol=1e-8, maxiter=100000, sigma=None, which=rng.choice(["SR", "LM", "SM"]), k=kk)))
+            if not stiff:
+                # shift-invert with the other selection rules, the (positive) shift inside the spectral gap or far beyond it
+                settings.append(("direct", dict(tol=1e-10, maxiter=100000, which=rng.choice(["SR", "LR"]), k=kk,
+                                                sigma=rng.choice([gap * rng.uniform(0.05, 0.4), abs(dense[-1]) * rng.uniform(0.2, 2.0)]))))
     if stiff:
         # ARPACK needs very many iterations on stiff matrices (deep wells; rotational and translational rates differing by f^2 ~ 1e6):
         # fewer settings and a lower iteration cap keep the quick tier quick (non-convergence is counted as skipped)
@@ -400,6 +467,44 @@ def pipeline(spec, rng, nprng, d, repo):
             else:
                 REC.crashed("C14.call_raised", e)
     return ctx["connected"], n
+
+
+def selection_problem(values, dense, which, sigma, etol, rho):
+    """'agree with a dense eigen-solver' also means: the SAME k eigenvalues the rule selects from the dense spectrum - the k largest real
+    parts for LR, smallest for SR, largest/smallest magnitude for LM/SM, and in shift-invert mode the same rules on nu = 1/(lambda - sigma)
+    (LM: the k eigenvalues nearest to sigma). Returns None when the returned values cover the selected ones; members of a cluster that
+    straddles the cut (or that ARPACK legitimately resolves only once) are excused."""
+    lam = np.real(np.asarray(dense))
+    k = len(values)
+    if k == 0 or k > len(lam):
+        return None
+    if sigma is None:
+        key = lam
+    else:
+        with np.errstate(divide="ignore"):
+            key = 1.0 / (lam - float(sigma))
+    crit = {"LR": key, "SR": -key, "LM": np.abs(key), "SM": -np.abs(key)}.get(which)
+    if crit is None:
+        return None
+    order = np.argsort(-crit, kind="stable")
+    rank = np.empty(len(lam), dtype=int)
+    rank[order] = np.arange(len(lam))
+    free = np.ones(len(lam), dtype=bool)
+    matched = []
+    for v in sorted(np.real(np.asarray(values)), reverse=True):
+        cand = np.flatnonzero(free & (np.abs(lam - v) <= etol))
+        if len(cand) == 0:
+            return None           # not in the spectrum at all: reported by the one-to-one check
+        j = cand[np.argmin(rank[cand])]
+        free[j] = False
+        matched.append(j)
+    missing = [j for j in order[:k] if free[j]]
+    cluster = max(2 * etol, 1e-6 * rho)
+    unexcused = [j for j in missing if np.min(np.abs(lam[matched] - lam[j])) > cluster]
+    if unexcused:
+        return {"selected_by_the_rule_but_not_returned": [float(lam[j]) for j in unexcused[:3]],
+                "returned_although_not_selected": [float(lam[j]) for j in matched if rank[j] >= k][:3], "which": which, "sigma": sigma}
+    return None
 
 
 def unmatched(values, dense, etol):
@@ -499,11 +604,17 @@ def make_spec(rng):
         r.append(round(r[-1] + rng.choice([0.05, 0.1, 0.2]), 3))
     t = "[" + ", ".join(str(x) for x in r) + "]"
     cart = rng.random() < 0.4 and surrounds(oalg, n_o)
-    return {"b": f"{balg}_{n_b}" if n_b > 1 else "1", "o": f"{oalg}_{n_o}", "t": t, "factor": rng.choice([0.5, 1, 2, 2, 1500, 0.01]), "cartesian": cart,
+    spec = {"b": f"{balg}_{n_b}" if n_b > 1 else "1", "o": f"{oalg}_{n_o}", "t": t, "factor": rng.choice([0.5, 1, 2, 2, 1500, 0.01]), "cartesian": cart,
             **({"deep_well": True} if (z := rng.random()) < 0.25 else {"ramp": True} if (z < 0.5 and T_ >= 3) else {}),   # never both: differences must stay below the cap
             "T": rng.choice([200.0, 273.0, 300.0, 400.0]), "D": rng.choice([0.1, 1.0, 27.5]), "route": rng.choice(["workflow", "workflow", "library"]),
             "n_b": n_b, "energy_offset": rng.choice([0.0, 0.0, -4.0e5, 1.0e4]), "shared_tool": rng.random() < 0.5,
             "twin": rng.random() < 0.5, "failed_first": rng.random() < 0.4}
+    flat = rng.random() < 0.3
+    if flat and not (spec.get("deep_well") or spec.get("ramp") or spec["factor"] not in (0.5, 1, 2)):
+        # an almost flat landscape (free diffusion), only on well-conditioned pipelines: with rates spread over twelve decades the dense
+        # reference itself no longer resolves the tiny eigenvalues next to zero
+        spec["energy_spread"] = 0.5
+    return spec
 
 
 def run_shard(spec):
@@ -527,6 +638,11 @@ def run_shard(spec):
                  "twin": True},
              1: {"b": "1", "o": "ico_12", "t": "[0.2, 0.3]", "factor": 1, "cartesian": False, "T": 300.0, "D": 1.0, "route": "workflow", "n_b": 1,
                  "twin": True, "failed_first": True},
+             8: {"b": "1", "o": "1", "t": "linspace(0.2, 1.6, 15)", "factor": 2, "cartesian": False, "T": 300.0, "D": 0.5, "route": "library", "n_b": 1,
+                 "energy_spread": 0.0},   # free radial diffusion on one ray with 15 shells, k = 12: the requested eigenvalues reach deep into
+             #                              the spectrum of a chain (extreme eigenvalue close to -2 max|diag|)
+             9: {"b": "1", "o": "cube3D_8", "t": "[0.2, 0.3]", "factor": 2, "cartesian": False, "T": 300.0, "D": 0.5, "route": "library", "n_b": 1,
+                 "energy_spread": 0.3},   # an almost flat landscape on 16 cells, k = 12
              2: {"b": "4", "o": "cube3D_4", "t": "[0.2, 0.35]", "factor": 2, "cartesian": False, "T": 273.0, "D": 1.0, "route": "library", "n_b": 4}}
     k = spec["rseed"] % 1000
     if k in fixed:
